@@ -132,36 +132,49 @@ theorem clog2_spec (n : Nat) (hn : 1 ≤ n) : n ≤ 2 ^ clog2 n := by
   omega
 
 /-- the value the model returns is a lower bound of every `m` that all its ingredients bound from below -/
-theorem lowerboundK_valid_proof (x : LBIn) (m lb : Nat) (hopt : x.optLb.getD 1 ≤ m)
+theorem lowerboundN_valid_proof (x : LBIn) (m : Nat) (hopt : x.optLb.getD 1 ≤ m)
     (hlog : distinctInt x.flows ≤ 2 ^ m) (hwidth : x.width ≤ m)
-    (hmgs : x.useMgs = true → ∀ s, x.mgs = some s → s ≤ m)
-    (hscan : x.useScan = true → ∀ s, x.scan = some s → s ≤ m)
-    (h : lowerboundK x = .value lb) : lb ≤ m := by
-  unfold lowerboundK at h
-  simp only at h
-  split at h
-  · cases h
-  · rename_i hn
-    have hcl : clog2 (distinctInt x.flows) ≤ m := clog2_le _ _ (by omega) hlog
-    have hv := LBOut.value.inj h
-    rw [← hv]
-    have h3 : (if x.useMgs = true then max (max (max (x.optLb.getD 1) (clog2 (distinctInt x.flows))) x.width)
-        (x.mgs.getD 0) else max (max (x.optLb.getD 1) (clog2 (distinctInt x.flows))) x.width) ≤ m := by
-      split
-      · rename_i hu
-        have : x.mgs.getD 0 ≤ m := by
-          cases hm : x.mgs with
-          | none => simp
-          | some s => simpa using hmgs hu s hm
-        omega
-      · omega
+    (hmgs : x.ignoreEmpty = true → x.useMgs = true → ∀ s, x.mgs = some s → s ≤ m)
+    (hscan : x.useScan = true → ∀ s, x.scan = some s → s ≤ m) : lowerboundN x ≤ m := by
+  unfold lowerboundN
+  simp only
+  have h1 : (if distinctInt x.flows = 0 then x.optLb.getD 1
+      else max (x.optLb.getD 1) (clog2 (distinctInt x.flows))) ≤ m := by
+    split
+    · exact hopt
+    · rename_i hn
+      have := clog2_le _ _ (by omega) hlog
+      omega
+  have h3 : (if (x.ignoreEmpty && x.useMgs) = true then
+      max (max (if distinctInt x.flows = 0 then x.optLb.getD 1
+        else max (x.optLb.getD 1) (clog2 (distinctInt x.flows))) x.width) (x.mgs.getD 0)
+      else max (if distinctInt x.flows = 0 then x.optLb.getD 1
+        else max (x.optLb.getD 1) (clog2 (distinctInt x.flows))) x.width) ≤ m := by
     split
     · rename_i hu
-      split
-      · rename_i s hs
-        have := hscan hu s hs
-        omega
-      · exact h3
+      have hu' : x.ignoreEmpty = true ∧ x.useMgs = true := by simpa using hu
+      have : x.mgs.getD 0 ≤ m := by
+        cases hm : x.mgs with
+        | none => simp
+        | some s => simpa using hmgs hu'.1 hu'.2 s hm
+      omega
+    · omega
+  split
+  · rename_i hu
+    split
+    · rename_i s hs
+      have := hscan hu s hs
+      omega
     · exact h3
+  · exact h3
+
+theorem lowerboundK_valid_proof (x : LBIn) (m lb : Nat) (hopt : x.optLb.getD 1 ≤ m)
+    (hlog : distinctInt x.flows ≤ 2 ^ m) (hwidth : x.width ≤ m)
+    (hmgs : x.ignoreEmpty = true → x.useMgs = true → ∀ s, x.mgs = some s → s ≤ m)
+    (hscan : x.useScan = true → ∀ s, x.scan = some s → s ≤ m)
+    (h : lowerboundK x = .value lb) : lb ≤ m := by
+  have hv : lowerboundN x = lb := LBOut.value.inj h
+  rw [← hv]
+  exact lowerboundN_valid_proof x m hopt hlog hwidth hmgs hscan
 
 end FP
